@@ -399,6 +399,124 @@ theorem renameSetNames_spec (names new : List ν) (h : names.Nodup) :
         · exact absurd hh hd
       exact ⟨hnd, by simpa using hl, fun ht => by simp at ht, fun _ => ⟨rfl, hnd⟩⟩
 
+/-! ### `map_mut` / `map_mut_with_index` of a matrix with a panicking closure -/
+
+theorem map_fst_zip_range (l : List α) : (List.zip l (List.range l.length)).map (·.1) = l := by
+  apply List.map_fst_zip
+  simp
+
+/-- what `matrixMapPanic` leaves: the size is untouched; if the closure panics on call `k` (which
+    happens iff `k` is below the element count) the first `k` row-major elements hold the closure's
+    results — computed from the old value and the position — and the rest are untouched; otherwise
+    every element is mapped -/
+theorem matrixMapPanic_spec (m : Matrix α) (f : α → Nat → Nat → α) (p : Option Nat) :
+    (matrixMapPanic m f p).state.rows = m.rows ∧ (matrixMapPanic m f p).state.columns = m.columns ∧
+      (matrixMapPanic m f p).state.data.length = m.data.length ∧
+      ((matrixMapPanic m f p).panic = some .explicit ↔ ∃ k, p = some k ∧ k < m.data.length) ∧
+      ((matrixMapPanic m f p).panic = none ∨ (matrixMapPanic m f p).panic = some .explicit) ∧
+      (∀ k, p = some k → k < m.data.length →
+        (matrixMapPanic m f p).state.data =
+          ((List.zip m.data (List.range m.data.length)).take k).map
+            (fun q => f q.1 (q.2 / m.columns) (q.2 % m.columns)) ++ m.data.drop k) := by
+  refine ⟨rfl, rfl, ?_, ?_, ?_, ?_⟩
+  · simp [matrixMapPanic, mapLoop_length]
+  · cases p with
+    | none => simp [matrixMapPanic, mapLoop_none]
+    | some k =>
+      have h := mapLoop_eq (fun (q : α × Nat) => (f q.1 (q.2 / m.columns) (q.2 % m.columns), q.2)) k
+        (List.zip m.data (List.range m.data.length)) 0
+      rw [Nat.zero_add] at h
+      simp only [matrixMapPanic, h]
+      by_cases hk : k < m.data.length
+      · simp [hk]
+      · simp [hk]
+  · simp only [matrixMapPanic]
+    split <;> simp
+  · intro k hp hk
+    subst hp
+    have h := mapLoop_eq (fun (q : α × Nat) => (f q.1 (q.2 / m.columns) (q.2 % m.columns), q.2)) k
+      (List.zip m.data (List.range m.data.length)) 0
+    rw [Nat.zero_add] at h
+    have hl : k < (List.zip m.data (List.range m.data.length)).length := by simp [hk]
+    simp only [matrixMapPanic, h, hl, if_true, List.map_append, List.map_map, List.map_drop,
+      map_fst_zip_range]
+    rfl
+
+theorem matrixMapPanic_inv (m : Matrix α) (hm : m.Inv) (f : α → Nat → Nat → α) (p : Option Nat) :
+    (matrixMapPanic m f p).state.Inv := by
+  obtain ⟨h1, h2, h3, _⟩ := matrixMapPanic_spec m f p
+  obtain ⟨i1, i2, i3⟩ := hm
+  exact ⟨by rw [h3, h1, h2, i1], by rw [h1]; exact i2, by rw [h2]; exact i3⟩
+
+theorem mapIdx_ite_lt (g : α → α) (l : List α) (k : Nat) :
+    l.mapIdx (fun n x => if n < k then g x else x) = (l.take k).map g ++ l.drop k := by
+  induction l generalizing k with
+  | nil => simp
+  | cons x xs ih =>
+    cases k with
+    | zero =>
+      have : (fun (n : Nat) (x : α) => if n < 0 then g x else x) = fun _ x => x := by
+        funext n x; simp
+      rw [this]
+      simp only [List.take_zero, List.map_nil, List.drop_zero, List.nil_append]
+      apply List.ext_getElem?
+      intro i
+      cases i with
+      | zero => simp
+      | succ i => simp [List.getElem?_mapIdx]
+    | succ k =>
+      rw [List.mapIdx_cons]
+      simp only [Nat.zero_lt_succ, if_true, List.take_succ_cons, List.map_cons, List.drop_succ_cons,
+        List.cons_append, Nat.add_lt_add_iff_right]
+      rw [ih k]
+
+/-- for a closure that ignores the position, `matrixMapPanic` is C11's `mapMutPanic` (so
+    `C11.inplace_map_panic_obs` and the extended histories `xrun` speak about it) -/
+theorem matrixMapPanic_eq_mapMutPanic (m : Matrix α) (g : α → α) (k : Nat) :
+    matrixMapPanic m (fun x _ _ => g x) (some k) = m.mapMutPanic g k := by
+  obtain ⟨_, _, _, hp, hor, hd⟩ := matrixMapPanic_spec m (fun x _ _ => g x) (some k)
+  obtain ⟨c1, c2⟩ := Matrix.mapMutLoop_spec g m.data k
+  have hstate : (matrixMapPanic m (fun x _ _ => g x) (some k)).state = (m.mapMutPanic g k).state := by
+    show ({ m with data := _ } : Matrix α) = { m with data := _ }
+    congr 1
+    show (matrixMapPanic m (fun x _ _ => g x) (some k)).state.data = (Matrix.mapMutLoop g k m.data).1
+    rw [c1, mapIdx_ite_lt]
+    by_cases hk : k < m.data.length
+    · rw [hd k rfl hk]
+      congr 1
+      have : ((List.zip m.data (List.range m.data.length)).take k).map (fun q => g q.1) =
+          (((List.zip m.data (List.range m.data.length)).take k).map (·.1)).map g := by
+        rw [List.map_map]; rfl
+      rw [this, List.map_take, map_fst_zip_range]
+    · have h := mapLoop_eq (fun (q : α × Nat) => (g q.1, q.2)) k
+        (List.zip m.data (List.range m.data.length)) 0
+      rw [Nat.zero_add] at h
+      have hl : ¬ k < (List.zip m.data (List.range m.data.length)).length := by simpa using hk
+      simp only [matrixMapPanic, h, hl, if_false, List.map_map]
+      have e1 : m.data.take k = m.data := List.take_of_length_le (by omega)
+      have e2 : m.data.drop k = [] := List.drop_eq_nil_of_le (by omega)
+      rw [e1, e2, List.append_nil]
+      have : (List.zip m.data (List.range m.data.length)).map ((fun q : α × Nat => q.1) ∘ fun q => (g q.1, q.2)) =
+          ((List.zip m.data (List.range m.data.length)).map (·.1)).map g := by
+        rw [List.map_map]; rfl
+      rw [this, map_fst_zip_range]
+  have hpanic : (matrixMapPanic m (fun x _ _ => g x) (some k)).panic = (m.mapMutPanic g k).panic := by
+    show _ = (Matrix.mapMutLoop g k m.data).2
+    rw [c2]
+    by_cases hk : k < m.data.length
+    · rw [if_pos hk]; exact hp.2 ⟨k, rfl, hk⟩
+    · rw [if_neg hk]
+      rcases hor with h | h
+      · exact h
+      · obtain ⟨k', hk', hlt⟩ := hp.1 h
+        cases hk'; exact absurd hlt hk
+  cases hA : matrixMapPanic m (fun x _ _ => g x) (some k)
+  cases hB : m.mapMutPanic g k
+  rw [hA] at hstate hpanic
+  rw [hB] at hstate hpanic
+  simp only at hstate hpanic
+  rw [hstate, hpanic]
+
 /-! ### matrix view sources whose cells stay inside the leaf -/
 
 /-- every position inside the view resolves to a cell below `len` -/
@@ -559,5 +677,41 @@ theorem accessSource_inBounds [Inhabited ν] (t : Tensor ν α) (ht : TInv t) (n
   refine ⟨o, by rw [hc, ho], ?_⟩
   rw [ht.1]
   exact lookupOffset_lt t.shape names idx o ho
+
+
+/-! ### access lists of the iterators, empty sources included -/
+
+theorem faithful_zero {π κ : Type} (item : Nat → Option π) (cell : π → Option κ) (cellOf : Nat → κ) :
+    Faithful item 0 cell cellOf :=
+  ⟨fun k hk => absurd hk (Nat.not_lt_zero k), fun j _ hj => absurd hj (Nat.not_lt_zero j)⟩
+
+/-- an iterator that enumerates no position makes no access, whatever the source resolves -/
+theorem accesses_nil_of_total_zero {σ π : Type} {next : σ → Outcome (Option π × σ)} {s0 : σ}
+    {item : Nat → Option π} {state : Nat → σ} (E : Enumerates next s0 0 item state)
+    (cell : π → Option Nat) (n : Nat) :
+    accessesOf (Iter.collect (Iter.refNext next cell) n s0) = .ok [] := by
+  rw [accesses_of_enumerates E (faithful_zero item cell (fun k => k)) n]
+  simp
+
+/-- every access of `n` calls lies below `len` as soon as every enumerated position resolves to
+    a cell below `len` -/
+theorem accesses_bounded {σ π : Type} {next : σ → Outcome (Option π × σ)} {s0 : σ} {total : Nat}
+    {item : Nat → Option π} {state : Nat → σ} (E : Enumerates next s0 total item state)
+    {cell : π → Option Nat} {cellOf : Nat → Nat} (F : Faithful item total cell cellOf) (len : Nat)
+    (hvalid : ∀ k, k < total → ∃ p c, item k = some p ∧ cell p = some c ∧ c < len) (n : Nat) :
+    ∃ accs, accessesOf (Iter.collect (Iter.refNext next cell) n s0) = .ok accs ∧
+      accs.length = min n total ∧ ∀ a ∈ accs, ∃ o, a = some o ∧ o < len := by
+  refine ⟨_, accesses_of_enumerates E F n, by simp, ?_⟩
+  intro a ha
+  simp only [List.mem_map, List.mem_range] at ha
+  obtain ⟨k, hk, rfl⟩ := ha
+  have hkt : k < total := by omega
+  obtain ⟨p, hp, hc⟩ := F.resolves k hkt
+  obtain ⟨p', c, hp', hc', hlt⟩ := hvalid k hkt
+  rw [hp] at hp'
+  cases hp'
+  rw [hc] at hc'
+  cases hc'
+  exact ⟨_, rfl, hlt⟩
 
 end EasyMl.Survivor
